@@ -716,3 +716,764 @@ Lemma runX_today : forall ops e, runX today ops e = run ops e.
 Proof.
   induction ops as [|o r IH]; intros e; simpl; [reflexivity|]. rewrite execX_today, IH. reflexivity.
 Qed.
+
+(* ------------------------------------------------------------------ 4. Finalize *)
+Definition is_ref8 (e : em) (l : lbl) (r : Z) : Prop := exists rs, lookup l (d8 e) = Some rs /\ In r rs.
+Definition is_ref16 (e : em) (l : lbl) (r : Z) : Prop := exists rs, lookup l (d16 e) = Some rs /\ In r rs.
+Definition referenced8 (e : em) (l : lbl) : Prop := exists rs, lookup l (d8 e) = Some rs.
+Definition referenced16 (e : em) (l : lbl) : Prop := exists rs, lookup l (d16 e) = Some rs.
+
+(* everything Finalize must not touch (the two maps are accounted for separately) *)
+Definition frame_eq (e e' : em) : Prop :=
+  flags e' = flags e /\ gen e' = gen e /\ n e' = n e /\ lines e' = lines e /\ base e' = base e /\
+  baseSet e' = baseSet e /\ address e' = address e /\ labels e' = labels e.
+Lemma frame_refl : forall e, frame_eq e e.
+Proof. intros. repeat split. Qed.
+Lemma frame_trans : forall a b c, frame_eq a b -> frame_eq b c -> frame_eq a c.
+Proof. unfold frame_eq. intros a b c H1 H2. intuition congruence. Qed.
+
+Definition bufok (e : em) : Prop := exists b, buf e = Some b /\ n e <= zlen b.
+Lemma bufok_code : forall e, bufok e -> buf e = Some (code e) /\ n e <= zlen (code e).
+Proof. intros e (b & Hb & Hn). unfold code. rewrite Hb. now split. Qed.
+
+Lemma znth_single : forall v, znth [v] 0 = v.
+Proof. reflexivity. Qed.
+
+Definition in_s8 (x : Z) : Prop := -128 <= x <= 127.
+
+(* the inner loop over the rel8 references of one label *)
+Lemma patch8_spec : forall addr refs e e' res,
+  bufok e -> 0 <= base e -> base e + n e < B32 ->
+  (forall r, In r refs -> base e <= r /\ r < base e + n e) ->
+  patch8 addr refs e = (e', res) ->
+  frame_eq e e' /\ d8 e' = d8 e /\ d16 e' = d16 e /\ bufok e' /\ zlen (code e') = zlen (code e) /\
+  (forall p, (forall r, In r refs -> p <> r - base e) -> znth (code e') p = znth (code e) p) /\
+  match res with
+  | FOk => forall r, In r refs -> in_s8 (addr - (r + 1)) /\ znth (code e') (r - base e) = (addr - (r + 1)) mod 256
+  | FTooFar f t => exists r, In r refs /\ f = r + 1 /\ t = addr /\ ~ in_s8 (addr - (r + 1))
+  | _ => False
+  end.
+Proof.
+  intros addr refs. induction refs as [|r0 rs IH]; intros e e' res Hbuf Hb0 Htop Hin Hp.
+  - simpl in Hp. inversion Hp; subst. repeat split; try reflexivity; try assumption;
+      try match goal with H : In _ [] |- _ => destruct H end.
+  - simpl in Hp.
+    destruct (Hin r0 (or_introl eq_refl)) as [Hr1 Hr2].
+    destruct (bufok_code _ Hbuf) as [Hcode Hn].
+    rewrite (w32_small (r0 + 1)) in Hp by (unfold B32 in *; lia).
+    rewrite (w32_small (r0 - base e)) in Hp by (unfold B32 in *; lia).
+    destruct ((127 <? addr - (r0 + 1)) || (addr - (r0 + 1) <? -128)) eqn:Efar.
+    + inversion Hp; subst. repeat split; try reflexivity; try assumption.
+      exists r0. repeat split; [now left|]. unfold in_s8. intros Hs.
+      apply orb_true_iff in Efar. destruct Efar as [E|E]; [apply Z.ltb_lt in E|apply Z.ltb_lt in E]; lia.
+    + apply orb_false_iff in Efar. destruct Efar as [E1 E2]. apply Z.ltb_ge in E1. apply Z.ltb_ge in E2.
+      destruct (r0 - base e <? zlen (code e)) eqn:Ei; [|apply Z.ltb_ge in Ei; lia].
+      set (v := (addr - (r0 + 1)) mod 256) in *.
+      set (e1 := set_buf (Some (upd (code e) (r0 - base e) v)) e) in *.
+      assert (Hz1 : zlen (code e1) = zlen (code e)).
+      { unfold e1, code at 1. cbn. unfold upd. apply zlen_splice; [lia|]. change (zlen [v]) with 1. lia. }
+      assert (Hb1 : bufok e1).
+      { exists (code e1). split; [reflexivity|]. rewrite Hz1. exact Hn. }
+      destruct (IH e1 e' res Hb1) as (F & E8 & E16 & Hb' & Hz & Hfr & Hres); try assumption.
+      { intros r Hr. apply Hin. now right. }
+      change (base e1) with (base e) in *.
+      assert (Hc1 : code e1 = upd (code e) (r0 - base e) v) by reflexivity.
+      assert (Hfr1 : forall p, p <> r0 - base e -> znth (code e1) p = znth (code e) p).
+      { intros p Hne. rewrite Hc1. unfold upd. apply znth_splice_out; [lia|change (zlen [v]) with 1; lia|].
+        change (zlen [v]) with 1. lia. }
+      assert (Hat : znth (code e1) (r0 - base e) = v).
+      { rewrite Hc1. unfold upd. rewrite znth_splice_in; [|lia|lia|change (zlen [v]) with 1; lia].
+        replace (r0 - base e - (r0 - base e)) with 0 by lia. apply znth_single. }
+      split; [exact F|]. split; [exact E8|]. split; [exact E16|]. split; [exact Hb'|].
+      split; [congruence|]. split.
+      * intros p Hp0. rewrite Hfr by (intros r Hr; apply Hp0; now right).
+        apply Hfr1. apply Hp0. now left.
+      * destruct res; try exact Hres.
+        -- intros r Hr. destruct (in_dec Z.eq_dec r rs) as [Hi|Hni]; [now apply Hres|].
+           destruct Hr as [Hr|Hr]; [subst r|exfalso; apply Hni; exact Hr].
+           split; [unfold in_s8; lia|].
+           rewrite Hfr; [exact Hat|]. intros r Hr Heq. apply Hni. replace r0 with r by lia. exact Hr.
+        -- destruct Hres as (r & Hr & Hres). exists r. split; [now right|exact Hres].
+Qed.
+
+(* the two bytes stored for a jump: the low 16 bits of the label address, little endian *)
+Definition lo16 (a : Z) : Z := (a mod 65536) mod 256.
+Definition hi16 (a : Z) : Z := (a mod 65536) / 256.
+Lemma lo16_eq : forall a, a mod 256 = lo16 a.
+Proof. intros a. unfold lo16. Z.div_mod_to_equations. lia. Qed.
+Lemma hi16_eq : forall a, (a / 256) mod 256 = hi16 a.
+Proof. intros a. unfold hi16. Z.div_mod_to_equations. lia. Qed.
+
+Lemma znth_pair0 : forall a b, znth [a; b] 0 = a.
+Proof. reflexivity. Qed.
+Lemma znth_pair1 : forall a b, znth [a; b] 1 = b.
+Proof. reflexivity. Qed.
+
+(* the inner loop over the abs16 references of one label *)
+Lemma patch16_spec : forall addr refs e e' res,
+  bufok e -> 0 <= base e -> base e + n e < B32 ->
+  (forall r, In r refs -> base e <= r /\ r + 1 < base e + n e) ->
+  (forall r r', In r refs -> In r' refs -> r = r' \/ r + 1 < r' \/ r' + 1 < r) ->
+  patch16 addr refs e = (e', res) ->
+  frame_eq e e' /\ d8 e' = d8 e /\ d16 e' = d16 e /\ bufok e' /\ zlen (code e') = zlen (code e) /\
+  (forall p, (forall r, In r refs -> p <> r - base e /\ p <> r + 1 - base e) -> znth (code e') p = znth (code e) p) /\
+  match res with
+  | FOk => forall r, In r refs ->
+             znth (code e') (r - base e) = lo16 addr /\ znth (code e') (r + 1 - base e) = hi16 addr
+  | _ => False
+  end.
+Proof.
+  intros addr refs. induction refs as [|r0 rs IH]; intros e e' res Hbuf Hb0 Htop Hin Hsp Hp.
+  - simpl in Hp. inversion Hp; subst. repeat split; try reflexivity; try assumption;
+      try match goal with H : In _ [] |- _ => destruct H end.
+  - simpl in Hp.
+    destruct (Hin r0 (or_introl eq_refl)) as [Hr1 Hr2].
+    destruct (bufok_code _ Hbuf) as [Hcode Hn].
+    rewrite (w32_small (r0 - base e)) in Hp by (unfold B32 in *; lia).
+    rewrite (w32_small (r0 - base e + 2)) in Hp by (unfold B32 in *; lia).
+    destruct ((r0 - base e <=? r0 - base e + 2) && (r0 - base e + 2 <=? zlen (code e))) eqn:Ei.
+    2:{ apply andb_false_iff in Ei. destruct Ei as [E|E]; apply Z.leb_gt in E; lia. }
+    set (v := [addr mod 256; (addr / 256) mod 256]) in *.
+    assert (Hv : zlen v = 2) by reflexivity.
+    set (e1 := set_buf (Some (splice (code e) (r0 - base e) v)) e) in *.
+    assert (Hz1 : zlen (code e1) = zlen (code e)).
+    { unfold e1, code at 1. cbn. apply zlen_splice; lia. }
+    assert (Hb1 : bufok e1).
+    { exists (code e1). split; [reflexivity|]. rewrite Hz1. exact Hn. }
+    destruct (IH e1 e' res Hb1) as (F & E8 & E16 & Hb' & Hz & Hfr & Hres); try assumption.
+    { intros r Hr. apply Hin. now right. }
+    { intros r r' Hr Hr'. apply Hsp; now right. }
+    change (base e1) with (base e) in *.
+    assert (Hc1 : code e1 = splice (code e) (r0 - base e) v) by reflexivity.
+    assert (Hfr1 : forall p, p <> r0 - base e -> p <> r0 + 1 - base e -> znth (code e1) p = znth (code e) p).
+    { intros p Hne1 Hne2. rewrite Hc1. apply znth_splice_out; lia. }
+    assert (Hat0 : znth (code e1) (r0 - base e) = lo16 addr).
+    { rewrite Hc1. rewrite znth_splice_in by lia.
+      replace (r0 - base e - (r0 - base e)) with 0 by lia. unfold v. rewrite znth_pair0. apply lo16_eq. }
+    assert (Hat1 : znth (code e1) (r0 + 1 - base e) = hi16 addr).
+    { rewrite Hc1. rewrite znth_splice_in by lia.
+      replace (r0 + 1 - base e - (r0 - base e)) with 1 by lia. unfold v. rewrite znth_pair1. apply hi16_eq. }
+    split; [exact F|]. split; [exact E8|]. split; [exact E16|]. split; [exact Hb'|].
+    split; [congruence|]. split.
+    + intros p Hp0. rewrite Hfr by (intros r Hr; apply Hp0; now right).
+      destruct (Hp0 r0 (or_introl eq_refl)). now apply Hfr1.
+    + destruct res; try exact Hres.
+      intros r Hr. destruct (in_dec Z.eq_dec r rs) as [Hi|Hni]; [now apply Hres|].
+      destruct Hr as [Hr|Hr]; [subst r|exfalso; apply Hni; exact Hr].
+      assert (Hsep : forall r, In r rs -> r0 + 1 < r \/ r + 1 < r0).
+      { intros r Hr. destruct (Hsp r0 r (or_introl eq_refl) (or_intror Hr)) as [E|E]; [|exact E].
+        subst r. contradiction. }
+      split.
+      * rewrite Hfr; [exact Hat0|]. intros r Hr. specialize (Hsep r Hr). lia.
+      * rewrite Hfr; [exact Hat1|]. intros r Hr. specialize (Hsep r Hr). lia.
+Qed.
+
+(* preconditions of the first loop *)
+Definition Hyp8 (e : em) : Prop :=
+  bufok e /\ 0 <= base e /\ base e + n e < B32 /\
+  (forall l r, is_ref8 e l r -> base e <= r /\ r < base e + n e) /\
+  (forall l l' r, is_ref8 e l r -> is_ref8 e l' r -> l = l').
+
+Lemma is_ref8_remove : forall e e1 l l' r, d8 e1 = remove l (d8 e) ->
+  is_ref8 e1 l' r -> l' <> l /\ is_ref8 e l' r.
+Proof.
+  intros e e1 l l' r Hd (rs & Hl & Hi). rewrite Hd in Hl.
+  destruct (N.eq_dec l' l) as [->|Hne]; [rewrite lookup_remove_eq in Hl; discriminate|].
+  rewrite lookup_remove_neq in Hl by exact Hne. split; [exact Hne|]. now exists rs.
+Qed.
+
+Lemma fin8_spec : forall ord e e' res,
+  Hyp8 e -> fin8 ord e = (e', res) ->
+  frame_eq e e' /\ d16 e' = d16 e /\ bufok e' /\ zlen (code e') = zlen (code e) /\
+  (forall p, (forall l r, is_ref8 e l r -> p <> r - base e) -> znth (code e') p = znth (code e) p) /\
+  match res with
+  | FOk => (forall l, In l ord -> lookup l (d8 e') = None) /\
+           (forall l, ~ In l ord -> lookup l (d8 e') = lookup l (d8 e)) /\
+           (forall l, In l ord -> referenced8 e l -> exists a, lookup l (labels e) = Some a) /\
+           (forall l r a, In l ord -> is_ref8 e l r -> lookup l (labels e) = Some a ->
+              in_s8 (a - (r + 1)) /\ znth (code e') (r - base e) = (a - (r + 1)) mod 256)
+  | FUnresolved l => In l ord /\ referenced8 e l /\ lookup l (labels e) = None
+  | FTooFar f t => exists l r, In l ord /\ is_ref8 e l r /\ lookup l (labels e) = Some t /\
+                               f = r + 1 /\ ~ in_s8 (t - (r + 1))
+  | FPanic => False
+  end.
+Proof.
+  induction ord as [|l rest IH]; intros e e' res Hyp Hf.
+  - simpl in Hf. inversion Hf; subst. destruct Hyp as (Hb & _).
+    repeat split; try reflexivity; try assumption; try (intros; contradiction).
+  - simpl in Hf. destruct (lookup l (d8 e)) as [refs|] eqn:El.
+    2:{ (* l is not (or no longer) a key: skipped *)
+      destruct (IH e e' res Hyp Hf) as (F & E16 & Hb' & Hz & Hfr & Hres).
+      split; [exact F|]. split; [exact E16|]. split; [exact Hb'|]. split; [exact Hz|]. split; [exact Hfr|].
+      destruct res; try exact Hres.
+      - destruct Hres as (H1 & H2 & H3 & H4). split; [|split; [|split]].
+        + intros l0 [->|Hi]; [|now apply H1].
+          destruct (in_dec N.eq_dec l0 rest) as [Hi|Hni]; [now apply H1|]. rewrite H2 by exact Hni. exact El.
+        + intros l0 Hn. apply H2. intros Hi. apply Hn. now right.
+        + intros l0 [->|Hi] Hr; [destruct Hr as (rs & Hr); congruence|now apply H3].
+        + intros l0 r a [->|Hi] Hr; [destruct Hr as (rs & Hr & _); congruence|now apply H4].
+      - destruct Hres as (H1 & H2). split; [now right|exact H2].
+      - destruct Hres as (l0 & r & H1 & H2). exists l0, r. split; [now right|exact H2]. }
+    destruct (lookup l (labels e)) as [addr|] eqn:Ea.
+    2:{ inversion Hf; subst. destruct Hyp as (Hb & _).
+        repeat split; try reflexivity; try assumption; [now left|now exists refs]. }
+    destruct Hyp as (Hb & Hb0 & Htop & Hrng & Hdis).
+    assert (Hrefs : forall r, In r refs -> is_ref8 e l r) by (intros r Hr; now exists refs).
+    destruct (patch8 addr refs e) as [e1 r1] eqn:Ep.
+    destruct (patch8_spec addr refs e e1 r1 Hb Hb0 Htop) as (F1 & D8 & D16 & Hb1 & Hz1 & Hfr1 & Hres1); [|exact Ep|].
+    { intros r Hr. apply (Hrng l). now apply Hrefs. }
+    destruct F1 as (Ff & Fg & Fn & Fl & Fb & Fbs & Fa & Flab).
+    destruct r1; try contradiction.
+    + (* every reference of l patched; l leaves the map; rest of the order *)
+      set (e2 := set_d8 (remove l (d8 e1)) e1) in *.
+      assert (Hd2 : d8 e2 = remove l (d8 e)) by (unfold e2; cbn; now rewrite D8).
+      assert (Hyp2 : Hyp8 e2).
+      { unfold Hyp8. change (base e2) with (base e1). change (n e2) with (n e1). rewrite Fb, Fn.
+        split; [exact Hb1|]. split; [exact Hb0|]. split; [exact Htop|]. split.
+        - intros l0 r Hr. apply (is_ref8_remove e e2 l) in Hr; [|exact Hd2]. destruct Hr as [_ Hr]. now apply (Hrng l0).
+        - intros l0 l0' r Hr Hr'. apply (is_ref8_remove e e2 l) in Hr; [|exact Hd2].
+          apply (is_ref8_remove e e2 l) in Hr'; [|exact Hd2]. destruct Hr as [_ Hr]. destruct Hr' as [_ Hr'].
+          now apply (Hdis l0 l0' r). }
+      destruct (IH e2 e' res Hyp2 Hf) as (F & E16 & Hb' & Hz & Hfr & Hres).
+      change (base e2) with (base e1) in *. change (labels e2) with (labels e1) in *.
+      change (code e2) with (code e1) in *. change (d16 e2) with (d16 e1) in *.
+      rewrite Fb, Flab in *.
+      assert (Hsub : forall l0 r, is_ref8 e2 l0 r -> l0 <> l /\ is_ref8 e l0 r).
+      { intros l0 r Hr. now apply (is_ref8_remove e e2 l). }
+      assert (Hsup : forall l0 r, l0 <> l -> is_ref8 e l0 r -> is_ref8 e2 l0 r).
+      { intros l0 r Hne (rs & Hl & Hi). exists rs. split; [|exact Hi]. rewrite Hd2.
+        now rewrite lookup_remove_neq. }
+      split.
+      { unfold frame_eq in *. change (flags e2) with (flags e1) in F. change (gen e2) with (gen e1) in F.
+        change (n e2) with (n e1) in F. change (lines e2) with (lines e1) in F.
+        change (baseSet e2) with (baseSet e1) in F. change (address e2) with (address e1) in F.
+        change (base e2) with (base e1) in F. change (labels e2) with (labels e1) in F.
+        destruct F as (G1 & G2 & G3 & G4 & G5 & G6 & G7 & G8). repeat split; congruence. }
+      split; [congruence|]. split; [exact Hb'|]. split; [congruence|]. split.
+      { intros p Hp. rewrite Hfr.
+        - apply Hfr1. intros r Hr. apply (Hp l). now apply Hrefs.
+        - intros l0 r Hr. apply Hsub in Hr. destruct Hr as [_ Hr]. now apply (Hp l0). }
+      destruct res; try exact Hres.
+      * destruct Hres as (H1 & H2 & H3 & H4). split; [|split; [|split]].
+        -- intros l0 [->|Hi]; [|now apply H1].
+           destruct (in_dec N.eq_dec l0 rest) as [Hi|Hni]; [now apply H1|].
+           rewrite H2 by exact Hni. rewrite Hd2. apply lookup_remove_eq.
+        -- intros l0 Hn. rewrite H2 by (intros Hi; apply Hn; now right). rewrite Hd2.
+           apply lookup_remove_neq. intros ->. apply Hn. now left.
+        -- intros l0 Hi0 Hr. destruct (N.eq_dec l0 l) as [->|Hne]; [now exists addr|].
+           destruct Hi0 as [->|Hi0]; [contradiction|]. apply H3; [exact Hi0|].
+           destruct Hr as (rs & Hr). exists rs. rewrite Hd2. now rewrite lookup_remove_neq.
+        -- intros l0 r a Hi0 Hr Ha. destruct (N.eq_dec l0 l) as [->|Hne].
+           ++ assert (a = addr) by congruence. subst a.
+              destruct Hr as (rs & Hl & Hi). assert (rs = refs) by congruence. subst rs.
+              destruct (Hres1 r Hi) as [Hs Hv]. split; [exact Hs|].
+              rewrite Hfr; [exact Hv|]. intros l0 r' Hr' Heq. apply Hsub in Hr'. destruct Hr' as [Hne Hr'].
+              apply Hne. apply (Hdis l0 l r'); [exact Hr'|]. replace r' with r by lia. now apply Hrefs.
+           ++ destruct Hi0 as [->|Hi0]; [contradiction|]. apply (H4 l0); [exact Hi0| |exact Ha]. now apply Hsup.
+      * destruct Hres as (H1 & H2 & H3). split; [now right|]. split; [|exact H3].
+        destruct H2 as (rs & H2). rewrite Hd2 in H2. exists rs.
+        destruct (N.eq_dec l0 l) as [->|Hne]; [rewrite lookup_remove_eq in H2; discriminate|].
+        now rewrite lookup_remove_neq in H2.
+      * destruct Hres as (l0 & r & H1 & H2 & H3). exists l0, r. split; [now right|].
+        split; [|exact H3]. apply Hsub in H2. tauto.
+    + (* a branch out of range: early return *)
+      inversion Hf; subst e' res. split; [unfold frame_eq; intuition congruence|].
+      split; [exact D16|]. split; [exact Hb1|]. split; [exact Hz1|]. split.
+      { intros p Hp. apply Hfr1. intros r Hr. apply (Hp l). now apply Hrefs. }
+      destruct Hres1 as (r & Hr & Ef & Et & Hfar). subst. exists l, r.
+      split; [now left|]. split; [now apply Hrefs|]. split; [exact Ea|]. split; [reflexivity|exact Hfar].
+Qed.
+
+(* preconditions of the second loop *)
+Definition Hyp16 (e : em) : Prop :=
+  bufok e /\ 0 <= base e /\ base e + n e < B32 /\
+  (forall l r, is_ref16 e l r -> base e <= r /\ r + 1 < base e + n e) /\
+  (forall l l' r r', is_ref16 e l r -> is_ref16 e l' r' -> (l = l' /\ r = r') \/ r + 1 < r' \/ r' + 1 < r).
+
+Lemma is_ref16_remove : forall e e1 l l' r, d16 e1 = remove l (d16 e) ->
+  is_ref16 e1 l' r -> l' <> l /\ is_ref16 e l' r.
+Proof.
+  intros e e1 l l' r Hd (rs & Hl & Hi). rewrite Hd in Hl.
+  destruct (N.eq_dec l' l) as [->|Hne]; [rewrite lookup_remove_eq in Hl; discriminate|].
+  rewrite lookup_remove_neq in Hl by exact Hne. split; [exact Hne|]. now exists rs.
+Qed.
+
+Lemma fin16_spec : forall ord e e' res,
+  Hyp16 e -> fin16 ord e = (e', res) ->
+  frame_eq e e' /\ d8 e' = d8 e /\ bufok e' /\ zlen (code e') = zlen (code e) /\
+  (forall p, (forall l r, is_ref16 e l r -> p <> r - base e /\ p <> r + 1 - base e) ->
+             znth (code e') p = znth (code e) p) /\
+  match res with
+  | FOk => (forall l, In l ord -> lookup l (d16 e') = None) /\
+           (forall l, ~ In l ord -> lookup l (d16 e') = lookup l (d16 e)) /\
+           (forall l, In l ord -> referenced16 e l -> exists a, lookup l (labels e) = Some a) /\
+           (forall l r a, In l ord -> is_ref16 e l r -> lookup l (labels e) = Some a ->
+              znth (code e') (r - base e) = lo16 a /\ znth (code e') (r + 1 - base e) = hi16 a)
+  | FUnresolved l => In l ord /\ referenced16 e l /\ lookup l (labels e) = None
+  | _ => False
+  end.
+Proof.
+  induction ord as [|l rest IH]; intros e e' res Hyp Hf.
+  - simpl in Hf. inversion Hf; subst. destruct Hyp as (Hb & _).
+    repeat split; try reflexivity; try assumption; try (intros; contradiction).
+  - simpl in Hf. destruct (lookup l (d16 e)) as [refs|] eqn:El.
+    2:{ destruct (IH e e' res Hyp Hf) as (F & E8 & Hb' & Hz & Hfr & Hres).
+      split; [exact F|]. split; [exact E8|]. split; [exact Hb'|]. split; [exact Hz|]. split; [exact Hfr|].
+      destruct res; try exact Hres.
+      - destruct Hres as (H1 & H2 & H3 & H4). split; [|split; [|split]].
+        + intros l0 [->|Hi]; [|now apply H1].
+          destruct (in_dec N.eq_dec l0 rest) as [Hi|Hni]; [now apply H1|]. rewrite H2 by exact Hni. exact El.
+        + intros l0 Hn. apply H2. intros Hi. apply Hn. now right.
+        + intros l0 [->|Hi] Hr; [destruct Hr as (rs & Hr); congruence|now apply H3].
+        + intros l0 r a [->|Hi] Hr; [destruct Hr as (rs & Hr & _); congruence|now apply (H4 l0)].
+      - destruct Hres as (H1 & H2). split; [now right|exact H2]. }
+    destruct (lookup l (labels e)) as [addr|] eqn:Ea.
+    2:{ inversion Hf; subst. destruct Hyp as (Hb & _).
+        repeat split; try reflexivity; try assumption; [now left|now exists refs]. }
+    destruct Hyp as (Hb & Hb0 & Htop & Hrng & Hdis).
+    assert (Hrefs : forall r, In r refs -> is_ref16 e l r) by (intros r Hr; now exists refs).
+    destruct (patch16 addr refs e) as [e1 r1] eqn:Ep.
+    destruct (patch16_spec addr refs e e1 r1 Hb Hb0 Htop) as (F1 & D8 & D16 & Hb1 & Hz1 & Hfr1 & Hres1); [| |exact Ep|].
+    { intros r Hr. apply (Hrng l). now apply Hrefs. }
+    { intros r r' Hr Hr'. destruct (Hdis l l r r' (Hrefs r Hr) (Hrefs r' Hr')) as [[_ E]|E]; [now left|now right]. }
+    destruct F1 as (Ff & Fg & Fn & Fl & Fb & Fbs & Fa & Flab).
+    destruct r1; try contradiction.
+    set (e2 := set_d16 (remove l (d16 e1)) e1) in *.
+    assert (Hd2 : d16 e2 = remove l (d16 e)) by (unfold e2; cbn; now rewrite D16).
+    assert (Hyp2 : Hyp16 e2).
+    { unfold Hyp16. change (base e2) with (base e1). change (n e2) with (n e1). rewrite Fb, Fn.
+      split; [exact Hb1|]. split; [exact Hb0|]. split; [exact Htop|]. split.
+      - intros l0 r Hr. apply (is_ref16_remove e e2 l) in Hr; [|exact Hd2]. destruct Hr as [_ Hr]. now apply (Hrng l0).
+      - intros l0 l0' r r' Hr Hr'. apply (is_ref16_remove e e2 l) in Hr; [|exact Hd2].
+        apply (is_ref16_remove e e2 l) in Hr'; [|exact Hd2]. destruct Hr as [_ Hr]. destruct Hr' as [_ Hr'].
+        now apply (Hdis l0 l0' r r'). }
+    destruct (IH e2 e' res Hyp2 Hf) as (F & E8 & Hb' & Hz & Hfr & Hres).
+    change (base e2) with (base e1) in *. change (labels e2) with (labels e1) in *.
+    change (code e2) with (code e1) in *. change (d8 e2) with (d8 e1) in *.
+    assert (Hsub : forall l0 r, is_ref16 e2 l0 r -> l0 <> l /\ is_ref16 e l0 r).
+    { intros l0 r Hr. now apply (is_ref16_remove e e2 l). }
+    assert (Hsup : forall l0 r, l0 <> l -> is_ref16 e l0 r -> is_ref16 e2 l0 r).
+    { intros l0 r Hne (rs & Hl & Hi). exists rs. split; [|exact Hi]. rewrite Hd2.
+      now rewrite lookup_remove_neq. }
+    split.
+    { unfold frame_eq in *. change (flags e2) with (flags e1) in F. change (gen e2) with (gen e1) in F.
+      change (n e2) with (n e1) in F. change (lines e2) with (lines e1) in F.
+      change (baseSet e2) with (baseSet e1) in F. change (address e2) with (address e1) in F.
+      change (base e2) with (base e1) in F. change (labels e2) with (labels e1) in F.
+      destruct F as (G1 & G2 & G3 & G4 & G5 & G6 & G7 & G8). repeat split; congruence. }
+    rewrite Fb, Flab in *.
+    split; [congruence|]. split; [exact Hb'|]. split; [congruence|]. split.
+    { intros p Hp. rewrite Hfr.
+      - apply Hfr1. intros r Hr. apply (Hp l). now apply Hrefs.
+      - intros l0 r Hr. apply Hsub in Hr. destruct Hr as [_ Hr]. now apply (Hp l0). }
+    destruct res; try exact Hres.
+    * destruct Hres as (H1 & H2 & H3 & H4). split; [|split; [|split]].
+      -- intros l0 [->|Hi]; [|now apply H1].
+         destruct (in_dec N.eq_dec l0 rest) as [Hi|Hni]; [now apply H1|].
+         rewrite H2 by exact Hni. rewrite Hd2. apply lookup_remove_eq.
+      -- intros l0 Hn. rewrite H2 by (intros Hi; apply Hn; now right). rewrite Hd2.
+         apply lookup_remove_neq. intros ->. apply Hn. now left.
+      -- intros l0 Hi0 Hr. destruct (N.eq_dec l0 l) as [->|Hne]; [now exists addr|].
+         destruct Hi0 as [->|Hi0]; [contradiction|]. apply H3; [exact Hi0|].
+         destruct Hr as (rs & Hr). exists rs. rewrite Hd2. now rewrite lookup_remove_neq.
+      -- intros l0 r a Hi0 Hr Ha. destruct (N.eq_dec l0 l) as [->|Hne].
+         ++ assert (a = addr) by congruence. subst a.
+            destruct Hr as (rs & Hl & Hi). assert (rs = refs) by congruence. subst rs.
+            destruct (Hres1 r Hi) as [Hv0 Hv1].
+            assert (Hsep : forall l0 r', is_ref16 e2 l0 r' -> r + 1 < r' \/ r' + 1 < r).
+            { intros l0 r' Hr'. apply Hsub in Hr'. destruct Hr' as [Hne Hr'].
+              destruct (Hdis l l0 r r' (Hrefs r Hi) Hr') as [[E _]|E]; [congruence|exact E]. }
+            split.
+            ** rewrite Hfr; [exact Hv0|]. intros l0 r' Hr'. specialize (Hsep l0 r' Hr'). lia.
+            ** rewrite Hfr; [exact Hv1|]. intros l0 r' Hr'. specialize (Hsep l0 r' Hr'). lia.
+         ++ destruct Hi0 as [->|Hi0]; [contradiction|]. apply (H4 l0); [exact Hi0| |exact Ha]. now apply Hsup.
+    * destruct Hres as (H1 & H2 & H3). split; [now right|]. split; [|exact H3].
+      destruct H2 as (rs & H2). rewrite Hd2 in H2. exists rs.
+      destruct (N.eq_dec l0 l) as [->|Hne]; [rewrite lookup_remove_eq in H2; discriminate|].
+      now rewrite lookup_remove_neq in H2.
+Qed.
+
+(* ---- the whole of Finalize *)
+(* well-formed state: a real target, no wrap-around, every recorded reference inside the emitted bytes,
+   operand ranges of distinct references disjoint *)
+Record WF (e : em) : Prop := mkWF {
+  wf_buf : bufok e;
+  wf_base : 0 <= base e;
+  wf_top : base e + n e < B32;
+  wf_r8 : forall l r, is_ref8 e l r -> base e <= r /\ r < base e + n e;
+  wf_r16 : forall l r, is_ref16 e l r -> base e <= r /\ r + 1 < base e + n e;
+  wf_88 : forall l l' r, is_ref8 e l r -> is_ref8 e l' r -> l = l';
+  wf_816 : forall l l' r r', is_ref8 e l r -> is_ref16 e l' r' -> r <> r' /\ r <> r' + 1;
+  wf_1616 : forall l l' r r', is_ref16 e l r -> is_ref16 e l' r' ->
+              (l = l' /\ r = r') \/ r + 1 < r' \/ r' + 1 < r }.
+
+(* a visiting order of a Go map: every key is visited (at least once; a second visit finds the key deleted).
+   The permutations of the keys are such orders. *)
+Definition covers (ord : list lbl) (m : list (lbl * list Z)) : Prop := forall l, In l (keys m) -> In l ord.
+Lemma covers_keys : forall m, covers (keys m) m.
+Proof. intros m l H. exact H. Qed.
+Lemma covers_perm : forall m ord, (forall l, In l (keys m) -> In l ord) -> covers ord m.
+Proof. intros m ord H. exact H. Qed.
+
+(* all referenced labels are defined and all rel8 distances are in [-128, 127] *)
+Definition resolvable (e : em) : Prop :=
+  (forall l, referenced8 e l -> exists a, lookup l (labels e) = Some a) /\
+  (forall l r a, is_ref8 e l r -> lookup l (labels e) = Some a -> in_s8 (a - (r + 1))) /\
+  (forall l, referenced16 e l -> exists a, lookup l (labels e) = Some a).
+
+(* buffer offsets that belong to the operand of a recorded label reference *)
+Definition operand_pos (e : em) (p : Z) : Prop :=
+  (exists l r, is_ref8 e l r /\ p = r - base e) \/
+  (exists l r, is_ref16 e l r /\ (p = r - base e \/ p = r + 1 - base e)).
+
+Definition finalize_post (e e' : em) (res : fres) : Prop :=
+  frame_eq e e' /\ bufok e' /\ zlen (code e') = zlen (code e) /\
+  (* only operand bytes of label references can differ, whatever the outcome *)
+  (forall p, ~ operand_pos e p -> znth (code e') p = znth (code e) p) /\
+  match res with
+  | FOk =>
+      resolvable e /\ (forall l, lookup l (d8 e') = None) /\ (forall l, lookup l (d16 e') = None) /\
+      (forall l r a, is_ref8 e l r -> lookup l (labels e) = Some a ->
+         znth (code e') (r - base e) = (a - (r + 1)) mod 256) /\
+      (forall l r a, is_ref16 e l r -> lookup l (labels e) = Some a ->
+         znth (code e') (r - base e) = lo16 a /\ znth (code e') (r + 1 - base e) = hi16 a)
+  | FUnresolved l => (referenced8 e l \/ referenced16 e l) /\ lookup l (labels e) = None
+  | FTooFar f t => exists l r, is_ref8 e l r /\ lookup l (labels e) = Some t /\ f = r + 1 /\ ~ in_s8 (t - (r + 1))
+  | FPanic => False
+  end.
+
+Theorem finalize_spec : forall o8 o16 e e' res,
+  WF e -> covers o8 (d8 e) -> covers o16 (d16 e) -> Finalize o8 o16 e = (e', res) -> finalize_post e e' res.
+Proof.
+  intros o8 o16 e e' res [Wb Wb0 Wt W8 W16 W88 W816 W1616] C8 C16 Hf. unfold Finalize in Hf.
+  destruct (fin8 o8 e) as [e1 r1] eqn:E8.
+  assert (Hyp : Hyp8 e) by (unfold Hyp8; auto).
+  destruct (fin8_spec o8 e e1 r1 Hyp E8) as (F1 & D16 & Hb1 & Hz1 & Hfr1 & Hres1).
+  assert (Hin8 : forall l, referenced8 e l -> In l o8).
+  { intros l (rs & Hl). apply C8. eapply lookup_Some_keys. exact Hl. }
+  assert (Hin8' : forall l r, is_ref8 e l r -> In l o8).
+  { intros l r (rs & Hl & _). apply Hin8. now exists rs. }
+  assert (Hnop8 : forall p, ~ operand_pos e p -> forall l r, is_ref8 e l r -> p <> r - base e).
+  { intros p Hn l r Hr Heq. apply Hn. left. now exists l, r. }
+  unfold finalize_post.
+  destruct r1.
+  - (* first loop complete *)
+    destruct Hres1 as (H1 & H2 & H3 & H4).
+    pose proof F1 as F1'. destruct F1' as (Ff & Fg & Fn & Fl & Fb & Fbs & Fa & Flab).
+    assert (Hyp2 : Hyp16 e1).
+    { unfold Hyp16. rewrite Fb, Fn. split; [exact Hb1|]. split; [exact Wb0|]. split; [exact Wt|].
+      unfold is_ref16. rewrite D16. split; [exact W16|exact W1616]. }
+    destruct (fin16_spec o16 e1 e' res Hyp2 Hf) as (F2 & D8 & Hb2 & Hz2 & Hfr2 & Hres2).
+    assert (R16 : forall l r, is_ref16 e1 l r <-> is_ref16 e l r) by (intros; unfold is_ref16; now rewrite D16).
+    assert (Hin16 : forall l, referenced16 e l -> In l o16).
+    { intros l (rs & Hl). apply C16. eapply lookup_Some_keys. exact Hl. }
+    rewrite Fb, Flab in *.
+    split; [eapply frame_trans; eassumption|]. split; [exact Hb2|]. split; [congruence|]. split.
+    { intros p Hn. rewrite Hfr2.
+      - apply Hfr1. now apply Hnop8.
+      - intros l r Hr. apply R16 in Hr. split; intros Heq; apply Hn; right; exists l, r; auto. }
+    destruct res; try contradiction.
+    + destruct Hres2 as (G1 & G2 & G3 & G4). split; [|split; [|split; [|split]]].
+      * split; [|split].
+        -- intros l Hr. apply H3; [now apply Hin8|exact Hr].
+        -- intros l r a Hr Ha. apply (H4 l r a); [now apply (Hin8' l r)|exact Hr|exact Ha].
+        -- intros l Hr. apply G3; [now apply Hin16|]. destruct Hr as (rs & Hr). exists rs. now rewrite D16.
+      * intros l. rewrite D8. destruct (in_dec N.eq_dec l o8) as [Hi|Hni]; [now apply H1|].
+        rewrite H2 by exact Hni. apply lookup_None_keys. intros Hk. apply Hni. now apply C8.
+      * intros l. destruct (in_dec N.eq_dec l o16) as [Hi|Hni]; [now apply G1|].
+        rewrite G2 by exact Hni. rewrite D16. apply lookup_None_keys. intros Hk. apply Hni. now apply C16.
+      * intros l r a Hr Ha. destruct (H4 l r a) as [_ Hv]; [now apply (Hin8' l r)|exact Hr|exact Ha|].
+        rewrite Hfr2; [exact Hv|]. intros l' r' Hr'. apply R16 in Hr'.
+        destruct (W816 l l' r r' Hr Hr'). lia.
+      * intros l r a Hr Ha. apply (G4 l r a); [|now apply R16|exact Ha].
+        apply Hin16. destruct Hr as (rs & Hl & _). now exists rs.
+    + destruct Hres2 as (G1 & G2 & G3). split; [|exact G3]. right.
+      destruct G2 as (rs & G2). exists rs. now rewrite <- D16.
+  - (* unresolved label in the first loop *)
+    inversion Hf; subst e' res. destruct Hres1 as (G1 & G2 & G3).
+    split; [exact F1|]. split; [exact Hb1|]. split; [exact Hz1|]. split.
+    { intros p Hn. apply Hfr1. now apply Hnop8. }
+    split; [now left|exact G3].
+  - (* branch out of range *)
+    inversion Hf; subst e' res. destruct Hres1 as (l & r & G1 & G2 & G3).
+    split; [exact F1|]. split; [exact Hb1|]. split; [exact Hz1|]. split.
+    { intros p Hn. apply Hfr1. now apply Hnop8. }
+    exists l, r. split; [exact G2|exact G3].
+  - contradiction.
+Qed.
+
+(* success iff all referenced labels are defined and all rel8 distances are in range -- for every order *)
+Theorem finalize_iff : forall o8 o16 e e' res,
+  WF e -> covers o8 (d8 e) -> covers o16 (d16 e) -> Finalize o8 o16 e = (e', res) ->
+  (res = FOk <-> resolvable e).
+Proof.
+  intros o8 o16 e e' res W C8 C16 Hf.
+  destruct (finalize_spec o8 o16 e e' res W C8 C16 Hf) as (_ & _ & _ & _ & Hres).
+  split.
+  - intros ->. apply Hres.
+  - intros (R1 & R2 & R3). destruct res; try reflexivity; exfalso.
+    + destruct Hres as ([Hr|Hr] & Hn); [destruct (R1 l Hr)|destruct (R3 l Hr)]; congruence.
+    + destruct Hres as (l & r & Hr & Ha & _ & Hfar). apply Hfar. now apply (R2 l r to).
+    + exact Hres.
+Qed.
+
+(* ---- reachable states are well-formed *)
+Lemma NoDup_map_snd_inj : forall (rs : list (lbl * Z)) l l' r,
+  NoDup (map snd rs) -> In (l, r) rs -> In (l', r) rs -> l = l'.
+Proof.
+  induction rs as [|[l0 r0] rs IH]; intros l l' r Hn H1 H2; [destruct H1|].
+  simpl in Hn. inversion Hn as [|x xs Hni Hn']; subst.
+  destruct H1 as [H1|H1]; destruct H2 as [H2|H2].
+  - congruence.
+  - inversion H1; subst. exfalso. apply Hni. now apply (In_map_snd l' r).
+  - inversion H2; subst. exfalso. apply Hni. now apply (In_map_snd l r).
+  - now apply (IH l l' r).
+Qed.
+
+Lemma SSorted_lt_NoDup : forall (R : Z -> Z -> Prop) l, (forall x, ~ R x x) -> StronglySorted R l -> NoDup l.
+Proof.
+  intros R l Hirr Hs. induction Hs as [|a l Hs IH Hf]; constructor; [|exact IH].
+  intros Hin. rewrite Forall_forall in Hf. apply (Hirr a). now apply Hf.
+Qed.
+
+Lemma Rel_is_ref8 : forall s e l r, Rel s e -> (is_ref8 e l r <-> In (l, r) (a_r8 s)).
+Proof.
+  intros s e l r HR. unfold is_ref8. split.
+  - intros (rs & Hl & Hi). rewrite (R_d8 _ _ HR) in Hl. now apply (group_In l (a_r8 s) rs r Hl).
+  - intros Hi. destruct (group l (a_r8 s)) as [rs|] eqn:Eg.
+    + exists rs. split; [now rewrite (R_d8 _ _ HR)|]. now apply (group_In l (a_r8 s) rs r Eg).
+    + exfalso. now apply (group_None l (a_r8 s) Eg r).
+Qed.
+Lemma Rel_is_ref16 : forall s e l r, Rel s e -> (is_ref16 e l r <-> In (l, r) (a_r16 s)).
+Proof.
+  intros s e l r HR. unfold is_ref16. split.
+  - intros (rs & Hl & Hi). rewrite (R_d16 _ _ HR) in Hl. now apply (group_In l (a_r16 s) rs r Hl).
+  - intros Hi. destruct (group l (a_r16 s)) as [rs|] eqn:Eg.
+    + exists rs. split; [now rewrite (R_d16 _ _ HR)|]. now apply (group_In l (a_r16 s) rs r Eg).
+    + exfalso. now apply (group_None l (a_r16 s) Eg r).
+Qed.
+
+Lemma Rel_WF : forall s e, Rel s e -> AInv s -> buf e <> None -> WF e.
+Proof.
+  intros s e HR [A8 A16 S8 S16 AX] Hnn.
+  pose proof HR as [R1 R2 R3 R4 R5 R6 R7 R8 R9].
+  destruct (buf e) as [b|] eqn:Eb; [|congruence]. destruct R5 as (Hn & Hle & Ht).
+  assert (Hpc : a_pc s = base e + n e) by (unfold a_pc; lia).
+  constructor.
+  - exists b. now split.
+  - lia.
+  - lia.
+  - intros l r Hr. apply (Rel_is_ref8 s) in Hr; [|exact HR]. apply A8 in Hr. lia.
+  - intros l r Hr. apply (Rel_is_ref16 s) in Hr; [|exact HR]. apply A16 in Hr. lia.
+  - intros l l' r Hr Hr'. apply (Rel_is_ref8 s) in Hr; [|exact HR]. apply (Rel_is_ref8 s) in Hr'; [|exact HR].
+    apply (NoDup_map_snd_inj (a_r8 s) l l' r); try assumption.
+    apply (SSorted_lt_NoDup Z.lt); [intros x; lia|exact S8].
+  - intros l l' r r' Hr Hr'. apply (Rel_is_ref8 s) in Hr; [|exact HR]. apply (Rel_is_ref16 s) in Hr'; [|exact HR].
+    now apply (AX l r l' r').
+  - intros l l' r r' Hr Hr'. apply (Rel_is_ref16 s) in Hr; [|exact HR]. apply (Rel_is_ref16 s) in Hr'; [|exact HR].
+    destruct (SSorted_In2 _ _ r r' S16 (In_map_snd _ _ _ Hr) (In_map_snd _ _ _ Hr')) as [E|[E|E]]; [|now right; left|now right; right].
+    left. split; [|exact E]. subst r'.
+    apply (NoDup_map_snd_inj (a_r16 s) l l' r); try assumption.
+    apply (SSorted_lt_NoDup (fun x y => x + 1 < y)); [intros x; lia|exact S16].
+Qed.
+
+Lemma stored_some : forall d e e', stored d e e' -> buf e <> None -> buf e' <> None.
+Proof.
+  intros d e e' H Hn. unfold stored in H. destruct (buf e); [|congruence].
+  destruct H as (_ & H & _). congruence.
+Qed.
+
+Lemma execX_buf : forall fx o e, buf e <> None -> buf (state_of (execX fx o e)) <> None.
+Proof.
+  intros fx o e Hn. destruct o as [a|c|c|k d l t g|bs|id|l]; cbn [execX exec state_of]; try exact Hn.
+  - destruct (guard_ok g e); [|exact Hn].
+    destruct (emitK k d l (apply_track t e)) as [e'|e'] eqn:Ek; cbn.
+    + apply emitK_done in Ek. destruct Ek as (Hst & _). eapply stored_some; [exact Hst|]. destruct t; exact Hn.
+    + apply emitK_refused in Ek. subst. destruct t; exact Hn.
+  - destruct (EmitBytesX fx bs e) as [e'|e'] eqn:Ek; cbn.
+    + apply EmitBytesX_done in Ek. destruct Ek as (Hst & _). eapply stored_some; eassumption.
+    + apply EmitBytesX_refused in Ek. destruct Ek as (Hb & _). congruence.
+  - pose proof (core_Comment id e) as (Hb & _). cbn. congruence.
+  - destruct (lookup l (labels e)) as [a|] eqn:El.
+    + now rewrite (LabelX_refused fx l e a El).
+    + destruct (LabelX_done fx l e El) as (e' & E & Hb & _). rewrite E. cbn. congruence.
+Qed.
+
+Lemma runX_buf : forall fx ops e, buf e <> None -> buf (fst (runX fx ops e)) <> None.
+Proof.
+  intros fx ops. induction ops as [|o r IH]; intros e Hn; [exact Hn|].
+  rewrite runX_cons. cbn [fst]. apply IH. now apply execX_buf.
+Qed.
+
+(* the same condition read off the program: every reference has a defined label, every branch is in range *)
+Definition program_resolvable (s : asm_st) : Prop :=
+  (forall l r, In (l, r) (a_r8 s) -> exists a, lookup l (a_lab s) = Some a /\ in_s8 (a - (r + 1))) /\
+  (forall l r, In (l, r) (a_r16 s) -> exists a, lookup l (a_lab s) = Some a).
+
+Lemma group_Some_nonempty : forall l rs xs, group l rs = Some xs -> exists r, In r xs.
+Proof.
+  intros l rs xs H. unfold group in H.
+  destruct (map snd (filter (fun x => N.eqb (fst x) l) rs)) as [|z zs]; [discriminate|].
+  inversion H; subst. exists z. now left.
+Qed.
+
+Lemma resolvable_program : forall s e, Rel s e -> (resolvable e <-> program_resolvable s).
+Proof.
+  intros s e HR. unfold resolvable, program_resolvable. split.
+  - intros (H1 & H2 & H3). split.
+    + intros l r Hi. apply (Rel_is_ref8 s e l r HR) in Hi.
+      destruct (H1 l) as (a & Ha). { destruct Hi as (rs & Hl & _). now exists rs. }
+      exists a. split; [now rewrite <- (R_lab _ _ HR)|]. now apply (H2 l r a).
+    + intros l r Hi. apply (Rel_is_ref16 s e l r HR) in Hi.
+      destruct (H3 l) as (a & Ha). { destruct Hi as (rs & Hl & _). now exists rs. }
+      exists a. now rewrite <- (R_lab _ _ HR).
+  - intros (H1 & H2). split; [|split].
+    + intros l (rs & Hl). pose proof Hl as Hg. rewrite (R_d8 _ _ HR) in Hg.
+      destruct (group_Some_nonempty _ _ _ Hg) as (r & Hr).
+      destruct (H1 l r) as (a & Ha & _). { now apply (group_In l (a_r8 s) rs r Hg). }
+      exists a. now rewrite (R_lab _ _ HR).
+    + intros l r a Hr Ha. apply (Rel_is_ref8 s e l r HR) in Hr. destruct (H1 l r Hr) as (a' & Ha' & Hs).
+      rewrite (R_lab _ _ HR) in Ha. congruence.
+    + intros l (rs & Hl). pose proof Hl as Hg. rewrite (R_d16 _ _ HR) in Hg.
+      destruct (group_Some_nonempty _ _ _ Hg) as (r & Hr).
+      destruct (H2 l r) as (a & Ha). { now apply (group_In l (a_r16 s) rs r Hg). }
+      exists a. now rewrite (R_lab _ _ HR).
+Qed.
+
+(* ================================================================== the C06 theorems *)
+
+(* every state reached with a real target is well-formed (so [finalize_spec] / [finalize_iff] apply) *)
+Theorem C06_reachable_WF : forall fx ops b g ef rl,
+  hist_ok ops -> runX fx ops (new_em (Some b) g) = (ef, rl) ->
+  in_one_bank (assemble (accepted ops rl)) -> WF ef.
+Proof.
+  intros fx ops b g ef rl Hh Hrun Hbank.
+  destruct (C06_history fx ops (Some b) g ef rl Hh Hrun Hbank) as [HR HA].
+  apply (Rel_WF _ _ HR HA). replace ef with (fst (runX fx ops (new_em (Some b) g))) by now rewrite Hrun.
+  apply runX_buf. discriminate.
+Qed.
+
+(* history invariant in the words of the property: for a real target the address is base + bytes emitted, the
+   bytes are the image, label keys are unique, and the recorded references are exactly the operand addresses
+   (opcode address + 1) of the accepted label instructions, each placed earlier in the history *)
+Theorem C06_history_facts : forall fx ops b g ef rl,
+  hist_ok ops -> runX fx ops (new_em (Some b) g) = (ef, rl) ->
+  in_one_bank (assemble (accepted ops rl)) ->
+  let s := assemble (accepted ops rl) in
+  address ef = base ef + n ef /\ Bytes ef = a_img s /\ n ef <= Cap ef /\ NoDup (keys (labels ef)) /\
+  (forall l r, is_ref8 ef l r <->
+     exists pre d t g' post, accepted ops rl = pre ++ OIns E2L d l t g' :: post /\ r = a_pc (assemble pre) + 1) /\
+  (forall l r, is_ref16 ef l r <->
+     exists pre d t g' post, accepted ops rl = pre ++ OIns E3L d l t g' :: post /\ r = a_pc (assemble pre) + 1) /\
+  (forall l r, is_ref8 ef l r -> base ef < r /\ r < base ef + n ef) /\
+  (forall l r, is_ref16 ef l r -> base ef < r /\ r + 1 < base ef + n ef).
+Proof.
+  intros fx ops b g ef rl Hh Hrun Hbank s.
+  destruct (C06_history fx ops (Some b) g ef rl Hh Hrun Hbank) as [HR HA]. fold s in HR, HA.
+  assert (Hnn : buf ef <> None).
+  { replace ef with (fst (runX fx ops (new_em (Some b) g))) by now rewrite Hrun. apply runX_buf. discriminate. }
+  pose proof HR as [R1 R2 R3 R4 R5 R6 R7 R8 R9].
+  destruct (buf ef) as [b'|] eqn:Eb; [|congruence]. destruct R5 as (Hn & Hle & Ht).
+  assert (Hpc : a_pc s = base ef + n ef) by (unfold a_pc; lia).
+  split; [lia|]. split; [unfold Bytes, code; now rewrite Eb|]. split; [unfold Cap, code; now rewrite Eb|].
+  split; [exact R7|]. split; [|split; [|split]].
+  - intros l r. rewrite (Rel_is_ref8 s ef l r HR). split; [apply ref8_origin|].
+    intros (pre & d & t & g' & post & E & Er). unfold s, assemble. rewrite E.
+    unfold assemble_from. rewrite fold_left_app. cbn [fold_left astep].
+    set (sp := fold_left (fun s o => astep o s) pre a_init) in *.
+    assert (Hk : forall post s0, In (l, r) (a_r8 s0) -> In (l, r) (a_r8 (fold_left (fun s o => astep o s) post s0))).
+    { clear. induction post as [|o post IH]; intros s0 Hi; [exact Hi|]. cbn [fold_left]. apply IH.
+      destruct o as [a|c|c|k d l0 t g|bs|id|l0]; cbn; try exact Hi. destruct k; try exact Hi.
+      apply in_or_app. now left. }
+    apply Hk. cbn. apply in_or_app. right. left. subst r. reflexivity.
+  - intros l r. rewrite (Rel_is_ref16 s ef l r HR). split; [apply ref16_origin|].
+    intros (pre & d & t & g' & post & E & Er). unfold s, assemble. rewrite E.
+    unfold assemble_from. rewrite fold_left_app. cbn [fold_left astep].
+    assert (Hk : forall post s0, In (l, r) (a_r16 s0) -> In (l, r) (a_r16 (fold_left (fun s o => astep o s) post s0))).
+    { clear. induction post as [|o post IH]; intros s0 Hi; [exact Hi|]. cbn [fold_left]. apply IH.
+      destruct o as [a|c|c|k d l0 t g|bs|id|l0]; cbn; try exact Hi. destruct k; try exact Hi.
+      apply in_or_app. now left. }
+    apply Hk. cbn. apply in_or_app. right. left. subst r. reflexivity.
+  - intros l r Hr. apply (Rel_is_ref8 s ef l r HR) in Hr. apply (ai_r8 _ HA) in Hr. lia.
+  - intros l r Hr. apply (Rel_is_ref16 s ef l r HR) in Hr. apply (ai_r16 _ HA) in Hr. lia.
+Qed.
+
+(* Finalize on any reachable state, for every visiting order of the two maps *)
+Theorem C06_finalize : forall fx ops b g ef rl o8 o16 e' res,
+  hist_ok ops -> runX fx ops (new_em (Some b) g) = (ef, rl) ->
+  in_one_bank (assemble (accepted ops rl)) ->
+  covers o8 (d8 ef) -> covers o16 (d16 ef) ->
+  Finalize o8 o16 ef = (e', res) ->
+  (res = FOk <-> program_resolvable (assemble (accepted ops rl))) /\ finalize_post ef e' res.
+Proof.
+  intros fx ops b g ef rl o8 o16 e' res Hh Hrun Hbank C8 C16 Hf.
+  pose proof (C06_reachable_WF fx ops b g ef rl Hh Hrun Hbank) as W.
+  destruct (C06_history fx ops (Some b) g ef rl Hh Hrun Hbank) as [HR _].
+  split.
+  - rewrite <- (resolvable_program _ _ HR). now apply (finalize_iff o8 o16 ef e' res).
+  - now apply (finalize_spec o8 o16).
+Qed.
+
+(* Label of an existing name is refused (Go: panics) and changes nothing *)
+Theorem C06_label_redefinition : forall fx l e a,
+  GetLabel l e = Some a -> execX fx (OLabel l) e = Refused e.
+Proof. intros fx l e a H. cbn. now apply (LabelX_refused fx l e a). Qed.
+
+Theorem C06_label_fresh : forall fx l e, GetLabel l e = None ->
+  exists e', execX fx (OLabel l) e = Done e' /\ GetLabel l e' = Some (PC e) /\
+             (forall l', l' <> l -> GetLabel l' e' = GetLabel l' e) /\ Bytes e' = Bytes e /\ PC e' = PC e.
+Proof.
+  intros fx l e H. destruct (LabelX_done fx l e H) as (e' & E & Hb & Hn & Hba & Ha & Hl & H8 & H16).
+  exists e'. split; [exact E|]. unfold GetLabel, PC, Bytes, code. rewrite Hl, Hb, Hn, Ha.
+  split; [apply lookup_insert_eq|]. split; [|split; reflexivity].
+  intros l' Hne. now apply lookup_insert_neq.
+Qed.
+
+(* ================================================================== 5. non-vacuity *)
+(* the premises are satisfiable by non-trivial programs, and the boundary distances behave as stated *)
+Ltac hist_ok_tac :=
+  split; [repeat constructor; cbn; unfold B32; try reflexivity; try lia|reflexivity].
+Ltac bank_tac := unfold in_one_bank; vm_compute; repeat split; intro; discriminate.
+
+Definition BRA (l : lbl) : op := OIns E2L [128; 255] l TNone GNone.
+Definition JMP (l : lbl) : op := OIns E3L [76; 255; 255] l TNone GNone.
+Definition NOPs (k : nat) : op := OEmitBytes (repeat 234 k).
+Definition target64k : option (list Z) := Some (repeat 0 1000).
+Definition fin_of (ops : list op) : list Z * fres :=
+  let ef := fst (run ops (new_em target64k false)) in
+  let '(e', res) := Finalize (keys (d8 ef)) (keys (d16 ef)) ef in (Bytes e', res).
+
+(* forward branch at distance exactly +127, backward branch at exactly -128, a jump, two references to one
+   label, base $C08000: Finalize succeeds and stores 7F / 80 / the low 16 bits of the label *)
+Definition ex_ok : list op :=
+  [OSetBase 12615680; OLabel 1%N; BRA 2%N; NOPs 124; BRA 1%N (* -128 *); NOPs 1; OLabel 2%N (* +127 from the first BRA *);
+   JMP 1%N; BRA 2%N (* -5 *); JMP 3%N; OLabel 3%N].
+Example ex_ok_premises : hist_ok ex_ok /\ in_one_bank (assemble ex_ok) /\
+  snd (run ex_ok (new_em target64k false)) = repeat false 11.
+Proof. split; [hist_ok_tac|split; [bank_tac|vm_compute; reflexivity]]. Qed.
+Example ex_ok_result :
+  snd (fin_of ex_ok) = FOk /\
+  znth (fst (fin_of ex_ok)) 1 = 127 /\            (* forward +127 *)
+  znth (fst (fin_of ex_ok)) 127 = 128 /\          (* backward -128 = $80 *)
+  slice (fst (fin_of ex_ok)) 130 132 = [0; 128] /\ (* jmp $8000 (low 16 bits of $C08000), little endian *)
+  znth (fst (fin_of ex_ok)) 133 = 251 /\          (* second reference to label 2: -5 *)
+  slice (fst (fin_of ex_ok)) 135 137 = [137; 128].  (* jmp $8089 *)
+Proof. vm_compute. repeat split; reflexivity. Qed.
+
+(* one byte further in either direction: refused, naming the branch *)
+Definition ex_far_fwd : list op := [OSetBase 32768; BRA 1%N; NOPs 128; OLabel 1%N].
+Definition ex_far_bwd : list op := [OSetBase 32768; OLabel 1%N; NOPs 127; BRA 1%N].
+Definition ex_missing : list op := [OSetBase 32768; BRA 1%N; JMP 2%N; OLabel 1%N].
+Example ex_far_fwd_result : hist_ok ex_far_fwd /\ snd (fin_of ex_far_fwd) = FTooFar 32770 32898.
+Proof. split; [hist_ok_tac|vm_compute; reflexivity]. Qed.
+Example ex_far_bwd_result : hist_ok ex_far_bwd /\ snd (fin_of ex_far_bwd) = FTooFar 32897 32768.
+Proof. split; [hist_ok_tac|vm_compute; reflexivity]. Qed.
+Example ex_missing_result : hist_ok ex_missing /\ snd (fin_of ex_missing) = FUnresolved 2%N /\
+  slice (fst (fin_of ex_missing)) 0 5 = [128; 3; 76; 255; 255].   (* the resolved branch is patched, the jump is not *)
+Proof. split; [hist_ok_tac|vm_compute; split; reflexivity]. Qed.
+
+(* a second Label of the same name is refused and the state stays as it was *)
+Example ex_redefinition :
+  let e := fst (run [OSetBase 32768; OLabel 1%N; BRA 1%N] (new_em target64k true)) in
+  exec (OLabel 1%N) e = Refused e.
+Proof. vm_compute. reflexivity. Qed.
